@@ -7,6 +7,12 @@
                           for it was sent a KILL, or has ended, or sits unowned in the
                           roster (where the next cleanup finds it); every active detector
                           belongs to a listed environment; its pending calls were cancelled
+    destroyedClean k keep v   what a destroy request that answered SUCCESS obliges: `cleanAfter`, and — unless
+                          tasks were to be kept — every task launched for k was sent a KILL (one the master
+                          accepted) or has ended: a task that could not be killed and sits in the roster again
+                          is enough for a creation that failed (its tasks fall to the next cleanup), not for a
+                          destroy that says it succeeded ("a destroy request that cannot be honoured returns
+                          an error rather than success")
     hooksAfterRelease     while a DESTROY hook ran, none of the other tasks was still locked
 -/
 import ControlModel.Spec.OwnView
@@ -20,6 +26,14 @@ def cleanAfter (k : EnvId) (keep : Bool) (v : View) : Bool :=
         || v.roster.any (fun r => decide (r.task = m.task) && decide (r.owner = none))))
   && v.dets.all (fun d => v.envs.any (fun E => decide (d ∈ E.dets)))
   && v.calls.all (fun c => decide (c.1 ≠ k) || decide (c.2.1 = c.2.2))
+
+/-- Every task launched for `k` was sent a KILL call that the master accepted, or has ended. -/
+def allKilled (k : EnvId) (v : View) : Bool :=
+  v.master.all (fun m => decide (m.label ≠ k) || m.killed || decide (m.mesos = .terminal))
+
+/-- What a DestroyEnvironment that answered success obliges the view afterwards to satisfy. -/
+def destroyedClean (k : EnvId) (keep : Bool) (v : View) : Bool :=
+  cleanAfter k keep v && (keep || allKilled k v)
 
 /-- Part of the hypothesis excluded by finding destroy_hooks_unreleased (fixed): the DESTROY /
     after_DESTROY hooks of the environment sit at one weight at most. -/
@@ -79,15 +93,19 @@ def freshEnv (s : State) (k : EnvId) : Bool :=
 
 /-- What a round's operation obliges the view after the round to satisfy. -/
 inductive Claim where
-  | clean (k : EnvId) (keep : Bool)    -- a destroy that returned success / a creation that failed
-  | returned                           -- any request: it must return (ok or error)
+  | clean (k : EnvId) (keep : Bool)        -- a creation that failed (`cleanAfter`)
+  | destroyed (k : EnvId) (keep : Bool)    -- a destroy that returned success (`destroyedClean`)
+  | returned                               -- any request: it must return (ok or error)
   deriving DecidableEq, Repr, Inhabited
 
 /-- Observations taken while a DESTROY hook task held its trigger: environment,
     hook role, number of non-hook tasks of the environment still locked. -/
 def hooksAfterRelease (hk : List (EnvId × Nat × Nat)) : Bool := hk.all (fun h => decide (h.2.2 = 0))
 
-def specC06Round (clean : List (EnvId × Bool)) (hung : Bool) (hk : List (EnvId × Nat × Nat)) (a : View) : Bool :=
-  !hung && !a.crashed && clean.all (fun c => cleanAfter c.1 c.2 a) && hooksAfterRelease hk
+/-- One round: `clean` = the creations that failed in it (environment, keep = false), `destroyed` = the destroy
+    requests that answered success in it (environment, keepTasks). -/
+def specC06Round (clean destroyed : List (EnvId × Bool)) (hung : Bool) (hk : List (EnvId × Nat × Nat)) (a : View) : Bool :=
+  !hung && !a.crashed && clean.all (fun c => cleanAfter c.1 c.2 a) && destroyed.all (fun c => destroyedClean c.1 c.2 a)
+  && hooksAfterRelease hk
 
 end Own
